@@ -7,7 +7,8 @@ import Rfsm.Proofs.DurationLemmas
 Model: `Rfsm.Timer` (`lean/Rfsm/Model/Timer.lean`).  A *schedule* is a list of `Op`s: the session
 thread's `send` / `cancel` / `assign` / `terminate`, the passage of time `tick t`, `wake` (the
 timer thread runs and pops everything that is due — possibly much later than the first due time)
-and `stop` (the `Stop` message that the dropped `timer::Timer` sent reaches the scheduler thread).
+and `stop` (the `Stop` message that the dropped `timer::Timer` sent reaches the scheduler thread;
+since the repair of P19 it no longer matters when: `terminate` itself drops every guard).
 "For all schedules" is a universal quantifier over `List (Op δ ε)`; the datamodel `δ` and the
 event type `ε` are arbitrary types, `mk : δ → ε` is everything a `<send>` evaluates.
 
@@ -18,24 +19,18 @@ namespace Rfsm.Timer
 
 variable {δ ε : Type}
 
-/-- states reachable from a fresh session (whatever its datamodel shares with its events) -/
+/-- states reachable from a fresh session (any distance to chrono's last date, any datamodel) -/
 def Reachable (t : Timer δ ε) : Prop :=
-  ∃ (f : δ → ε → ε) (hr : Nat) (d : δ) (ops : List (Op δ ε)), t = (Timer.initFull f hr d).run ops
+  ∃ (hr : Nat) (d : δ) (ops : List (Op δ ε)), t = (Timer.initFull hr d).run ops
 
 theorem Reachable.wf {t : Timer δ ε} (h : Reachable t) : WF t := by
-  obtain ⟨f, hr, d, ops, rfl⟩ := h
-  exact (WF.initFull f hr d).run ops
+  obtain ⟨hr, d, ops, rfl⟩ := h
+  exact (WF.initFull hr d).run ops
 #assert_axioms Reachable.wf
 
-theorem Reachable.seen {t : Timer δ ε} (h : Reachable t) : Seen t := by
-  obtain ⟨f, hr, d, ops, rfl⟩ := h
-  have h0 : Seen (Timer.initFull f hr d : Timer δ ε) := by intro x hx; simp [Timer.initFull] at hx
-  exact h0.run ops
-#assert_axioms Reachable.seen
-
 theorem Reachable.run {t : Timer δ ε} (h : Reachable t) (ops : List (Op δ ε)) : Reachable (t.run ops) := by
-  obtain ⟨f, hr, d, ops0, rfl⟩ := h
-  refine ⟨f, hr, d, ops0 ++ ops, ?_⟩
+  obtain ⟨hr, d, ops0, rfl⟩ := h
+  refine ⟨hr, d, ops0 ++ ops, ?_⟩
   have : ∀ (u : Timer δ ε) (a b : List (Op δ ε)), (u.run a).run b = u.run (a ++ b) := by
     intro u a b
     induction a generalizing u with
@@ -48,14 +43,9 @@ theorem Reachable.run {t : Timer δ ε} (h : Reachable t) (ops : List (Op δ ε)
 
 /-- the `<send>` is carried out: the session is running, the delay is not negative, a delayed
 send does not target `#_internal` (otherwise `SendParameters::execute` aborts with error.execution),
-and `now + delay` is a date `chrono` can represent (otherwise the session thread panics) -/
+and `now + delay` is a date `chrono` can represent (otherwise, too, error.execution) -/
 def Accepted (t : Timer δ ε) (tg : Str) (delay : Int) : Prop :=
   t.alive = true ∧ 0 ≤ delay ∧ ¬ (0 < delay ∧ tg = internalTarget) ∧ delay.toNat ≤ t.headroom
-
-/-- the value a `<send>` builds shares no container with the datamodel: reading it later through the
-sender's data gives the same value (true of numbers, strings, booleans; NOT of an array or map taken
-by `<param location>` / `namelist`) -/
-def NoSharing (t : Timer δ ε) (mk : δ → ε) : Prop := ∀ d', t.deref d' (mk t.data) = mk t.data
 
 /-- (e)+(a), parametrised by the side condition on the payload.  A `<send>` executed in state `t`:
 whatever happens afterwards (any schedule, in particular any later `assign`), the receiver of a
@@ -99,14 +89,14 @@ def ClauseExactlyOnce (side : ∀ (δ ε : Type), Timer δ ε → Entry ε → L
     (((t.run ops).wake.log.filter (fun d => d.entry.seq = e.seq)).length = 1 ∧
      ∃ d ∈ (t.run ops).wake.log, d.entry = e ∧ d.viaTimer = true)
 
-/-- (c) `<cancel sendid=id>`: exactly the pending entries sent with `id` disappear, nothing is
-delivered, every other entry stays, the guards registered under other ids stay; the cancelled
-entries are never delivered later. -/
+/-- (c) `<cancel sendid=id>`: exactly the pending entries sent with `id` disappear (ALL of them, if
+several sends with that id are pending), nothing is delivered, every other entry stays, exactly the
+guards registered under other ids (or under none) stay; the cancelled entries are never delivered later. -/
 def ClauseCancel : Prop :=
   ∀ (δ ε : Type) (t : Timer δ ε), Reachable t → t.alive = true → ∀ (id : SendId),
     (t.cancel id).pending = t.pending.filter (fun e => e.sendid ≠ some id) ∧
     (t.cancel id).log = t.log ∧
-    (∀ id', id' ≠ id → lookupId id' (t.cancel id).delayed = lookupId id' t.delayed) ∧
+    (t.cancel id).delayed = t.delayed.filter (fun p => p.1 ≠ some id) ∧
     ∀ (ops : List (Op δ ε)), ∀ e ∈ t.pending, e.sendid = some id →
       ∀ d ∈ ((t.cancel id).run ops).log, d.entry.seq ≠ e.seq
 
@@ -120,9 +110,8 @@ def ClauseTerminate : Prop :=
   ∀ (δ ε : Type) (t : Timer δ ε), Reachable t → ∀ (ops : List (Op δ ε)),
     (t.terminate.run ops).log = t.log
 
-/-- (d) what the code guarantees: nothing is delivered once the timer's scheduler thread has
-processed the `Stop` message that the dropped `Fsm.timer` sent; between the end of the session
-thread and that moment the timer thread still delivers what falls due. -/
+/-- (d) for ANY state (reachable or not): nothing is delivered once the timer's scheduler thread has
+processed the `Stop` message that the dropped `Fsm.timer` sent. -/
 def ClauseTerminateStop : Prop :=
   ∀ (δ ε : Type) (t : Timer δ ε) (ops : List (Op δ ε)),
     (t.terminate.stop.run ops).log = t.log ∧ (t.terminate.stop.run ops).pending = []
@@ -143,22 +132,9 @@ def C16_full : Prop :=
   ClauseExactlyOnce (fun _ _ _ _ _ => True) ∧
   ClauseCancel ∧ ClauseOtherSession ∧ ClauseTerminate ∧ ClauseDuration
 
-/-- "pending send ids are distinct": no delayed `<send id=X>` executes while a send with id `X`
-is pending (`idsFresh`, decidable on a concrete schedule). -/
-def distinctIds : ∀ (δ ε : Type), Timer δ ε → Entry ε → List (Op δ ε) → Prop :=
-  fun _ _ t _ ops => idsFresh t ops = true
-
-/-- What holds of the unchanged code: everything, with "the receiver reads the value built at send
-time" for payloads that share no container with the datamodel, "exactly once" under `distinctIds`
-and "termination discards" from the moment the timer thread has seen the `Stop` message. -/
-def C16_partial_statement : Prop :=
-  ClauseValueNotEarly (fun _ _ t mk => NoSharing t mk) ∧ ClauseOrdered ∧ ClauseAtMostOnce ∧
-  ClauseExactlyOnce distinctIds ∧
-  ClauseCancel ∧ ClauseOtherSession ∧ ClauseTerminateStop ∧ ClauseDuration
-
 /-! ## Proofs -/
 
-theorem C16_value_not_early : ClauseValueNotEarly (fun _ _ t mk => NoSharing t mk) := by
+theorem C16_value_not_early : ClauseValueNotEarly (fun _ _ _ _ => True) := by
   intro δ ε t hr id tg delay mk
   have hB : ¬ Accepted t tg delay →
       (t.send id tg delay mk).pending = t.pending ∧ (t.send id tg delay mk).log = t.log ∧
@@ -179,24 +155,16 @@ theorem C16_value_not_early : ClauseValueNotEarly (fun _ _ t mk => NoSharing t m
     apply hna
     refine ⟨by simpa using h1, by omega, h3, by omega⟩
   refine ⟨?_, hB⟩
-  intro hacc hshare ops d hd hseq
-  -- what the receiver reads: the captured event through the (constant) deref at some later data
-  have hseen : d.entry.event = mk t.data → d.seen = mk t.data := by
-    intro hev
-    have hr' : Reachable ((t.send id tg delay mk).run ops) := by
-      have : (t.send id tg delay mk).run ops = t.run (.send id tg delay mk :: ops) := rfl
-      rw [this]; exact hr.run _
-    obtain ⟨dat, hdat⟩ := hr'.seen d hd
-    have hde : ((t.send id tg delay mk).run ops).deref = t.deref := by
-      have : (t.send id tg delay mk).run ops = t.run (.send id tg delay mk :: ops) := rfl
-      rw [this]; exact run_deref _ _
-    rw [hdat, hde, hev]
-    exact hshare dat
+  intro hacc _ ops d hd hseq
   obtain ⟨halive, hnn, hni, hhead⟩ := hacc
   have hw := hr.wf
   -- the state right after the send
   have hfr := Frame.run (t.send id tg delay mk) ops
   have hwf' := (hw.send id tg delay mk).run ops
+  -- what the receiver reads is the captured event (its containers are copies)
+  have hseen : d.entry.event = mk t.data → d.seen = mk t.data := by
+    intro hev
+    rw [hwf'.lseen d hd, hev]
   have htime := hwf'.ltime d hd
   -- what the send itself produced
   have key : (d ∈ (t.send id tg delay mk).log ∨
@@ -233,21 +201,10 @@ theorem C16_value_not_early : ClauseValueNotEarly (fun _ _ t mk => NoSharing t m
       have hs := hseen (by rw [he])
       rw [he] at h1 ⊢
       exact ⟨hs, rfl, rfl, rfl, by simp only at h1 ⊢; omega⟩
-    cases id with
-    | none =>
-      simp only at key
-      rcases key with k | ⟨k, _⟩ | k
-      · have := hw.lseq d k; omega
-      · exact fin (hmem _ k hseq)
-      · omega
-    | some sid =>
-      simp only at key
-      rcases key with k | ⟨k, _⟩ | k
-      · have := hw.lseq d k; omega
-      · split at k
-        · exact fin (hmem _ (mem_dropGuard.1 k).1 hseq)
-        · exact fin (hmem _ k hseq)
-      · omega
+    rcases key with k | ⟨k, _⟩ | k
+    · have := hw.lseq d k; omega
+    · exact fin (hmem _ k hseq)
+    · simp only at k; omega
 #assert_axioms C16_value_not_early
 
 /-- (a) in its plain form: every delivery happens at or after its due time -/
@@ -276,19 +233,13 @@ theorem C16_due_earlier_first (t : Timer δ ε) (h : Reachable t) (l1 l2 : List 
 theorem C16_at_most_once : ClauseAtMostOnce := fun _ _ _ hr => hr.wf.lnodup
 #assert_axioms C16_at_most_once
 
-/-- "exactly once" under the hypothesis that no later delayed `<send>` re-uses the id while the
-entry is pending -/
-theorem C16_exactly_once_no_reuse :
-    ClauseExactlyOnce (fun _ _ _ e ops => ∀ op ∈ ops, op.harmlessFor e.sendid = true) := by
-  intro δ ε t hr e he ops hc hterm hside hdue
+/-- (b) exactly once, with no side condition: later `<send>`s — with whatever id — do not touch the
+guard of a pending entry -/
+theorem C16_exactly_once : ClauseExactlyOnce (fun _ _ _ _ _ => True) := by
+  intro δ ε t hr e he ops hc hterm _ hdue
   refine exactly_once_of_safe_aux t hr.wf e ops ?_ hdue
-  exact keep_run hr.wf he ops (fun op hop t' => Safe.of_harmless (hside op hop) t')
-#assert_axioms C16_exactly_once_no_reuse
-
-theorem C16_exactly_once_distinct_ids : ClauseExactlyOnce distinctIds := by
-  intro δ ε t hr e he ops hc hterm hside hdue
-  exact exactly_once_of_safe_aux t hr.wf e ops (idsFresh_keep_aux hr.wf he ops hc hterm hside) hdue
-#assert_axioms C16_exactly_once_distinct_ids
+  exact keep_run hr.wf he ops (fun op hop => Safe.of_no_cancel (hc op hop) (hterm op hop))
+#assert_axioms C16_exactly_once
 
 theorem C16_cancel : ClauseCancel := by
   intro δ ε t hr halive id
@@ -297,38 +248,24 @@ theorem C16_cancel : ClauseCancel := by
       (t.cancel id).log = t.log := by
     unfold Timer.cancel
     rw [if_neg (by simp [halive])]
-    split
-    · rename_i hnone
-      refine ⟨?_, rfl⟩
-      symm
-      rw [List.filter_eq_self]
-      intro e he
-      simp only [ne_eq, decide_not, Bool.not_eq_eq_eq_not, Bool.not_true, decide_eq_false_iff_not]
-      intro hs
-      have := hw.own e he id hs
-      rw [hnone] at this; cases this
-    · rename_i g hg
-      refine ⟨?_, rfl⟩
-      simp only [dropGuard]
-      apply List.filter_congr
-      intro e he
-      by_cases hs : e.sendid = some id
-      · have := hw.own e he id hs
-        rw [hg] at this
-        simp [hs, Option.some.inj this]
-      · have : e.seq ≠ g := fun hc => hs (hw.gid id g hg e he hc)
-        simp [hs, this]
-  have hother : ∀ id', id' ≠ id → lookupId id' (t.cancel id).delayed = lookupId id' t.delayed := by
-    intro id' hne
+    refine ⟨?_, rfl⟩
+    simp only
+    apply List.filter_congr
+    intro e he
+    by_cases hs : e.sendid = some id
+    · have hm : (some id, e.seq) ∈ t.delayed := by rw [← hs]; exact hw.own e he
+      simp [hs, hasGuard_iff.2 hm]
+    · have hg : hasGuard t.delayed (some id) e.seq = false := by
+        rw [hasGuard_false_iff]
+        intro hm
+        exact hs (hw.gid _ hm e he rfl)
+      simp [hs, hg]
+  have hother : (t.cancel id).delayed = t.delayed.filter (fun p => p.1 ≠ some id) := by
     unfold Timer.cancel
     rw [if_neg (by simp [halive])]
-    split
-    · rfl
-    · exact lookupId_removeId_ne hne _
   refine ⟨hpl.1, hpl.2, hother, ?_⟩
   intro ops e he hs d hd hseq
   have hfr := (Frame.run (t.cancel id) ops).log d hd
-  have hwc := hw.cancel id
   rcases hfr with k | ⟨k, _⟩ | k
   · rw [hpl.2] at k
     exact hw.ldisj d k e he hseq
@@ -338,9 +275,7 @@ theorem C16_cancel : ClauseCancel := by
     rw [this] at hk
     simp [hs] at hk
   · have hn : (t.cancel id).nextSeq = t.nextSeq := by
-      unfold Timer.cancel; split
-      · rfl
-      · split <;> rfl
+      unfold Timer.cancel; split <;> rfl
     rw [hn] at k
     have := hw.pseq e he
     omega
@@ -349,31 +284,25 @@ theorem C16_cancel : ClauseCancel := by
 theorem C16_other_session : ClauseOtherSession := fun _ _ _ _ => ⟨rfl, rfl⟩
 #assert_axioms C16_other_session
 
+/-- (d) as stated: the end of the session thread drops every guard, and every pending entry has one -/
+theorem C16_terminate : ClauseTerminate := by
+  intro δ ε t hr ops
+  exact (dead_run_aux t.terminate rfl (terminate_pending hr.wf) ops).1
+#assert_axioms C16_terminate
+
+/-- after termination nothing is pending either, whatever happens later -/
+theorem C16_terminate_nothing_pending (t : Timer δ ε) (hr : Reachable t) (ops : List (Op δ ε)) :
+    (t.terminate.run ops).pending = [] :=
+  (dead_run_aux t.terminate rfl (terminate_pending hr.wf) ops).2
+#assert_axioms C16_terminate_nothing_pending
+
 theorem C16_terminate_stop : ClauseTerminateStop := by
   intro δ ε t ops
-  have h : t.terminate.stop.stopped = true ∧ t.terminate.stop.alive = false ∧
-      t.terminate.stop.pending = [] ∧ t.terminate.stop.log = t.log := by
+  have h : t.terminate.stop.alive = false ∧ t.terminate.stop.pending = [] ∧ t.terminate.stop.log = t.log := by
     simp [Timer.stop, Timer.terminate]
-  have := stopped_run_aux t.terminate.stop h.1 h.2.1 h.2.2.1 ops
-  exact ⟨this.1.trans h.2.2.2, this.2⟩
+  have := dead_run_aux t.terminate.stop h.1 h.2.1 ops
+  exact ⟨this.1.trans h.2.2, this.2⟩
 #assert_axioms C16_terminate_stop
-
-/-- what can still be delivered after the session thread has ended (while the `Stop` message is
-under way) was pending at that moment, and is delivered no earlier than it was due -/
-theorem C16_after_terminate (t : Timer δ ε) (hr : Reachable t) (ops : List (Op δ ε)) :
-    ∀ d ∈ (t.terminate.run ops).log,
-      d ∈ t.log ∨ (d.entry ∈ t.pending ∧ d.viaTimer = true ∧ d.entry.due ≤ d.time) := by
-  intro d hd
-  have hw := (hr.wf.terminate).run ops
-  rcases (Frame.run t.terminate ops).log d hd with k | ⟨k, hv⟩ | k
-  · exact Or.inl k
-  · exact Or.inr ⟨k, hv, (hw.ltime d hd).1⟩
-  · exfalso
-    have h1 := hw.lseq d hd
-    rw [dead_nextSeq_aux t.terminate rfl ops] at h1
-    have : t.terminate.nextSeq = t.nextSeq := rfl
-    omega
-#assert_axioms C16_after_terminate
 
 theorem C16_duration : ClauseDuration := by
   constructor
@@ -433,74 +362,59 @@ theorem C16_duration_unknown_unit (ip fp : Str) (c : Nat) (r : Str) (hip : allDi
   parseDuration_unknown_unit ip fp c r hip hfp hne hu he hunit hkw hrange
 #assert_axioms C16_duration_unknown_unit
 
-/-! ## The verdict on the unchanged code -/
+/-! ## The verdict on the repaired code: the property holds as stated -/
 
-/-- P15: two pending sends with the SAME send id.  `delayed_send.insert` drops the first guard:
-`e1` (event 1, due at 100) is never delivered although nobody cancelled it. -/
+theorem C16 : C16_full :=
+  ⟨C16_value_not_early, C16_ordered, C16_at_most_once, C16_exactly_once,
+   C16_cancel, C16_other_session, C16_terminate, C16_duration⟩
+#assert_axioms C16
+
+/-! ## Regression: the schedules that refuted the property before the repairs -/
+
+/-- P15 (repaired): two pending sends with the SAME send id — both are delivered, each at its time. -/
 def p15Script : List (Op Nat Nat) :=
-  [.send (some [88]) [] 100 (fun _ => 1), .send (some [88]) [] 200 (fun _ => 2), .tick 300, .wake]
+  [.send (some [88]) [] 100 (fun _ => 1), .send (some [88]) [] 200 (fun _ => 2), .tick 150, .wake, .tick 300, .wake]
 
-theorem C16_counterexample_duplicate_sendid :
-    (((Timer.init 0 : Timer Nat Nat).run p15Script).log.map (fun d => (d.entry.event, d.time))) = [(2, 300)] := by
+theorem C16_regression_duplicate_sendid :
+    (((Timer.init 0 : Timer Nat Nat).run p15Script).log.map (fun d => (d.entry.event, d.time))) = [(1, 150), (2, 300)] := by
   decide
-#assert_axioms C16_counterexample_duplicate_sendid
+#assert_axioms C16_regression_duplicate_sendid
 
-theorem C16_counterexample : ¬ C16_full := by
-  intro h
-  have hex := h.2.2.2.1
-  -- the state after the first send; the second send, the tick are the schedule
-  let t1 : Timer Nat Nat := (Timer.init 0).send (some [88]) [] 100 (fun _ => 1)
-  have hr : Reachable t1 := ⟨fun _ e => e, chronoHeadroom, 0, [.send (some [88]) [] 100 (fun _ => 1)], rfl⟩
-  let e1 : Entry Nat := ⟨100, 0, some [88], [], 1⟩
-  have he : e1 ∈ t1.pending := by decide
-  have := hex Nat Nat t1 hr e1 he [.send (some [88]) [] 200 (fun _ => 2), .tick 300]
-    (by intro op hop id hid; simp at hop; rcases hop with rfl | rfl <;> cases hid)
-    (by intro op hop; simp at hop; rcases hop with rfl | rfl <;> simp)
-    trivial (by decide)
-  have hlen := this.1
-  revert hlen
+/-- … and `<cancel>` of that id cancels both. -/
+theorem C16_regression_cancel_all_with_id :
+    ((Timer.init 0 : Timer Nat Nat).run
+      [.send (some [88]) [] 100 (fun _ => 1), .send (some [88]) [] 200 (fun _ => 2), .send none [] 200 (fun _ => 3),
+       .cancel [88], .tick 300, .wake]).log.map (fun d => d.entry.event) = [3] := by
   decide
-#assert_axioms C16_counterexample
+#assert_axioms C16_regression_cancel_all_with_id
 
-/-- The `Stop` message is asynchronous: a send due at 100, the session thread ends at 50, the timer
-thread wakes at 100 before it has seen `Stop` — the event of the terminated session is delivered. -/
+/-- P19 (repaired): a send due at 100, the session thread ends at 50, the timer thread wakes at 100
+before it has seen `Stop` — nothing is delivered, with or without id. -/
 def stopLatencyScript : List (Op Nat Nat) := [.tick 50, .terminate, .tick 100, .wake, .stop]
 
-theorem C16_counterexample_stop_latency : ¬ ClauseTerminate := by
-  intro h
-  let t1 : Timer Nat Nat := ((Timer.init 0).send none [] 100 (fun _ => 1)).tick 50
-  have hr : Reachable t1 := ⟨fun _ e => e, chronoHeadroom, 0, [.send none [] 100 (fun _ => 1), .tick 50], rfl⟩
-  have := h Nat Nat t1 hr [.tick 100, .wake, .stop]
-  have hl := congrArg List.length this
-  revert hl
+theorem C16_regression_stop_latency :
+    ((Timer.init 0 : Timer Nat Nat).run
+      ([.send none [] 100 (fun _ => 1), .send (some [65]) [] 100 (fun _ => 2)] ++ stopLatencyScript)).log = [] := by
   decide
-#assert_axioms C16_counterexample_stop_latency
+#assert_axioms C16_regression_stop_latency
 
-/-- An array or map handed to `<send>` by `<param location=…>` (or `namelist`) is cloned
-shallowly: its elements stay shared with the sender's datamodel.  Event type `(isRef, value)`;
-a reference reads the datum as it is when the receiver looks at it. -/
-def sharedDeref : Nat → Bool × Nat → Bool × Nat := fun d e => if e.1 then (true, d) else e
-
-def sharedScript : List (Op Nat (Bool × Nat)) := [.assign (fun _ => 99), .tick 200, .wake]
-
-theorem C16_counterexample_shared_container : ¬ ClauseValueNotEarly (fun _ _ _ _ => True) := by
-  intro h
-  let t0 : Timer Nat (Bool × Nat) := Timer.initWith sharedDeref 1
-  have hr : Reachable t0 := ⟨sharedDeref, chronoHeadroom, 1, [], rfl⟩
-  have hlog : ((t0.send none [] 200 (fun x => (true, x))).run sharedScript).log =
-      [⟨200, true, ⟨200, 0, none, [], (true, 1)⟩, (true, 99)⟩] := by decide
-  have := (h Nat (Bool × Nat) t0 hr none [] 200 (fun x => (true, x))).1
-    ⟨rfl, by decide, by decide, by decide⟩ trivial sharedScript
-    ⟨200, true, ⟨200, 0, none, [], (true, 1)⟩, (true, 99)⟩ (by rw [hlog]; exact List.mem_cons_self ..) rfl
-  have hs := this.1
-  revert hs
+/-- P18 (repaired): a payload is read as it was built, whatever is assigned afterwards. -/
+theorem C16_regression_payload_is_a_copy :
+    ((Timer.init 1 : Timer Nat (Bool × Nat)).run
+      [.send none [] 200 (fun x => (true, x)), .assign (fun _ => 99), .tick 200, .wake]).log.map (fun d => d.seen)
+      = [(true, 1)] := by
   decide
-#assert_axioms C16_counterexample_shared_container
+#assert_axioms C16_regression_payload_is_a_copy
 
-theorem C16_partial : C16_partial_statement :=
-  ⟨C16_value_not_early, C16_ordered, C16_at_most_once, C16_exactly_once_distinct_ids,
-   C16_cancel, C16_other_session, C16_terminate_stop, C16_duration⟩
-#assert_axioms C16_partial
+/-- C12-huge-delay (repaired): a delay beyond chrono's date range is an illegal delay — error.execution,
+nothing scheduled, the session goes on. -/
+theorem C16_regression_huge_delay :
+    let t := (Timer.init 0 : Timer Nat Nat).run
+      [.send none [] 100 (fun _ => 1), .send none [] 9223372036854775807 (fun _ => 2), .send none [] 0 (fun _ => 3),
+       .tick 200, .wake]
+    t.errors = 1 ∧ t.alive = true ∧ t.log.map (fun d => d.entry.event) = [3, 1] := by
+  decide
+#assert_axioms C16_regression_huge_delay
 
 /-! ## Non-vacuity: the hypotheses are satisfiable, the operations do something -/
 
@@ -510,38 +424,20 @@ example : ((Timer.init 5 : Timer Nat Nat).run
     [.send (some [65]) [] 200 (fun x => x), .assign (fun _ => 9), .send (some [66]) [] 100 (fun x => x),
      .cancel [67], .tick 150, .wake, .tick 250, .wake]).log.map (fun d => (d.entry.event, d.entry.due, d.time))
     = [(9, 100, 150), (5, 200, 250)] := by decide
--- that schedule satisfies `idsFresh`
-example : idsFresh (Timer.init 5 : Timer Nat Nat)
-    [.send (some [65]) [] 200 (fun x => x), .assign (fun _ => 9), .send (some [66]) [] 100 (fun x => x),
-     .cancel [67], .tick 150, .wake, .tick 250, .wake] = true := by decide
--- the P15 schedule does not
-example : idsFresh (Timer.init 0 : Timer Nat Nat) p15Script = false := by decide
 -- cancel before the due time prevents delivery; after the due time it is too late
 example : ((Timer.init 0 : Timer Nat Nat).run
     [.send (some [65]) [] 100 (fun _ => 1), .tick 50, .cancel [65], .tick 150, .wake]).log.length = 0 := by decide
 example : ((Timer.init 0 : Timer Nat Nat).run
     [.send (some [65]) [] 100 (fun _ => 1), .tick 150, .wake, .cancel [65]]).log.length = 1 := by decide
--- termination discards once the Stop message has been seen
+-- termination discards at once; what was due before is delivered
 example : ((Timer.init 0 : Timer Nat Nat).run
-    [.send none [] 100 (fun _ => 1), .tick 50, .terminate, .stop, .tick 150, .wake]).log.length = 0 := by decide
+    [.send none [] 100 (fun _ => 1), .tick 50, .terminate, .tick 150, .wake]).log.length = 0 := by decide
 example : ((Timer.init 0 : Timer Nat Nat).run
-    ([.send none [] 100 (fun _ => 1), .tick 50] ++ stopLatencyScript)).log.length = 1 := by decide
+    [.send none [] 100 (fun _ => 1), .tick 120, .wake, .terminate, .tick 150, .wake]).log.length = 1 := by decide
 -- a late timer thread: still due order, still not early
 example : ((Timer.init 0 : Timer Nat Nat).run
     [.send none [] 100 (fun _ => 1), .tick 120, .send none [] 10 (fun _ => 2), .tick 500, .wake]).log.map
       (fun d => (d.entry.event, d.time)) = [(1, 500), (2, 500)] := by decide
--- the same id may be re-used once the earlier send has been delivered
-example : idsFresh (Timer.init 0 : Timer Nat Nat)
-    [.send (some [65]) [] 100 (fun _ => 1), .tick 100, .wake, .send (some [65]) [] 100 (fun _ => 2)] = true := by decide
--- scalar payloads satisfy `NoSharing`; a shared container does not
-example : NoSharing (Timer.init 5 : Timer Nat Nat) (fun x => x) := fun _ => rfl
-example : ¬ NoSharing (Timer.initWith sharedDeref 1) (fun x => (true, x)) := by
-  intro h; have := h 2; revert this; decide
--- a delay beyond chrono's date range: the session thread panics, nothing is scheduled, nothing more happens
-example : ((Timer.init 0 : Timer Nat Nat).run
-    [.send none [] 100 (fun _ => 1), .send none [] 9223372036854775807 (fun _ => 2), .send none [] 0 (fun _ => 3),
-     .stop, .tick 200, .wake]).log.length = 0 := by decide
-example : ((Timer.init 0 : Timer Nat Nat).send none [] 9223372036854775807 (fun _ => 2)).crashed = true := by decide
 -- durations ("6.7s", ".5s", "1Sx", "x1S", "5", "1.5.5s")
 example : parseDuration [54, 46, 55, 115] = 6700 := by decide
 example : parseDuration [46, 53, 115] = 500 := by decide
